@@ -258,6 +258,76 @@ fn main() {
             check_case(l, mu.cfg, &map, &setts, &|| format!("cfg={:?}\nspec={}\n--- .osu ---\n{}", mu.cfg, spec.describe(), spec.text()));
         });
     }
+    // marathon maps: a hard opening (40 notes 100 ms apart) and an easy tail of 1080 notes 400 ms apart — more than 1024
+    // strain sections, the decisive peaks are the oldest ones (anything that keeps only "recent" or "enough" peaks per step
+    // shows here and nowhere else). One walk by next() compared at checkpoints, plus nth / last jumps from a fresh calculator.
+    {
+        let cfgs: Vec<ModeCfg> = MODE_CFGS.to_vec();
+        ctx.universe("marathon/40-fast+1080-slow/checkpoints", cfgs.len() as u64, |idx, l| {
+            use std::fmt::Write as _;
+            let cfg = cfgs[idx as usize];
+            let mut t = format!("osu file format v14\n\n[General]\nMode: {}\n\n[Difficulty]\nHPDrainRate:5\nCircleSize:4\nOverallDifficulty:7\nApproachRate:8\nSliderMultiplier:1.4\nSliderTickRate:1\n\n[TimingPoints]\n0,400,4,2,0,60,1,0\n\n[HitObjects]\n", cfg.src);
+            let mut time = 1000;
+            for i in 0..1120u32 {
+                let _ = writeln!(t, "{},192,{time},1,{},0:0:0:0:", [64, 448, 192, 320][(i % 4) as usize], if i % 3 == 0 { 8 } else { 0 });
+                time += if i < 40 { 100 } else { 400 };
+            }
+            let map = Beatmap::from_bytes(t.as_bytes()).expect("decodes");
+            let d = Setting::nm().difficulty(gen::game_mode(cfg.dst));
+            let total = api::gradual_perf(d.clone(), &map, cfg.dst).expect("convertible").len();
+            l.nontrivial();
+            let one_shot = |pos: usize| {
+                let prefix = api::difficulty(&d.clone().passed_objects(pos as u32), &map, cfg.dst).expect("convertible");
+                let st = state_for(1, &prefix, pos as u32);
+                let mut p = Performance::new(&map).difficulty(d.clone());
+                if cfg.src != cfg.dst {
+                    p = p.try_mode(gen::game_mode(cfg.dst)).ok().expect("convertible");
+                }
+                (st.clone(), p.passed_objects(pos as u32).state(st).calculate())
+            };
+            let checkpoints: Vec<usize> = [30usize, 41, 900, 1064, 1065, 1070, 1100, total].into_iter().filter(|&p| p >= 1 && p <= total).collect();
+            let refs: Vec<(usize, ScoreState, PerformanceAttributes)> = checkpoints.iter().map(|&p| { let (s, a) = one_shot(p); (p, s, a) }).collect();
+            let fail = |l: &mut Local<'_>, how: &str, pos: usize, got: &Option<PerformanceAttributes>, want: &PerformanceAttributes| {
+                let class = format!("{}to{}", cfg.src, cfg.dst);
+                l.violation(&class, || format!("marathon map (mode {} file, 40 notes 100 ms apart then 1080 notes 400 ms apart), cfg={cfg:?}, no mods\n{how}: position {pos} of {total}\n gradual : {}\n one-shot: {}", cfg.src, canon(&format!("{got:?}")), canon(&format!("{:?}", Some(want)))));
+            };
+            // one walk, next() at every step (SS-of-the-prefix state only where compared; zero state elsewhere)
+            let mut g = api::gradual_perf(d.clone(), &map, cfg.dst).expect("convertible");
+            for pos in 1..=total {
+                if let Some((_, st, want)) = refs.iter().find(|r| r.0 == pos) {
+                    let got = g.next(st.clone());
+                    l.checked(1);
+                    if !same_opt(&got, &Some(want.clone())) {
+                        fail(l, "walk by next()", pos, &got, want);
+                        return;
+                    }
+                } else {
+                    let _ = g.next(ScoreState::new());
+                }
+                l.states(1);
+            }
+            // jumps from a fresh calculator
+            for (pos, st, want) in &refs {
+                let mut g = api::gradual_perf(d.clone(), &map, cfg.dst).expect("convertible");
+                let got = g.nth(st.clone(), pos - 1);
+                l.checked(1);
+                l.states(1);
+                if !same_opt(&got, &Some(want.clone())) {
+                    fail(l, "nth() from a fresh calculator", *pos, &got, want);
+                    return;
+                }
+                if *pos == total {
+                    let mut g = api::gradual_perf(d.clone(), &map, cfg.dst).expect("convertible");
+                    let got = g.last(st.clone());
+                    l.checked(1);
+                    if !same_opt(&got, &Some(want.clone())) {
+                        fail(l, "last() from a fresh calculator", *pos, &got, want);
+                        return;
+                    }
+                }
+            }
+        });
+    }
     // native mania with a fractional key count (CircleSize x.5)
     {
         let cfg = gen::ModeCfg { src: 3, dst: 3 };
